@@ -35,6 +35,15 @@ fn main() {
             std::process::exit(code);
         }
         Some("calib") => calib(&args[2..]),
+        Some("judge") => {
+            // development aid: vcheck judge <property> <input file> <output file> [syntax]  - the oracle's verdict on a given pair
+            let prop = vlib::props::e1_prop(&args[2]).expect("library-level property");
+            let src = std::fs::read_to_string(&args[3]).unwrap();
+            let out = std::fs::read_to_string(&args[4]).unwrap();
+            let syn = vlib::lex::Syntax::from_name(args.get(5).map_or("Luau", |s| s.as_str())).unwrap();
+            let case = Case::new(src, vlib::cfg::Cfg::default_for(syn));
+            println!("{:?}", (prop.oracle)(&case, &vlib::engine::Outcome::Ok(out), 0));
+        }
         Some("lexdiff") => lexdiff(),
         Some("diffops") => diffops(&args[2], &args[3]),
         Some("roundtrip") => roundtrip(&args[2], &args[3]),
@@ -107,6 +116,16 @@ fn calib(args: &[String]) {
             let mut t = Tape::new(&tape);
             let mut labels = Vec::new();
             let Some(case) = (prop.gen_case)(&mut t, &mut labels) else { return Ok(()) };
+            // the verdict domain of the real check: known-finding exclusions apply (VERIF_CALIB_RAW=1 turns them off)
+            if std::env::var("VERIF_CALIB_RAW").is_err() {
+                if let Some(kf) = prop.exclude.and_then(|e| e(&case)) {
+                    let mut c = counts.borrow_mut();
+                    c.2 += 1;
+                    let e = c.3.entry(format!("excluded:{kf}")).or_default();
+                    e.0 += 1;
+                    return Ok(());
+                }
+            }
             let (out, _) = vlib::engine::run_format(&case);
             let v = (prop.oracle)(&case, &out, 0);
             let mut c = counts.borrow_mut();
